@@ -285,6 +285,14 @@ func checkC14(t *testing.T, c C14Case) *stats.Verdict {
 		if got.IsSet() && multiLine(got.String()) {
 			return v.Failf("", "Message.UnmarshalText produced a multi-line %s %q from %q", c.Field, got.String(), in)
 		}
+		if err != nil {
+			// the text holds something UnmarshalText rejects (an invalid retry line inside the
+			// value's later lines): the message is then in no documented state; only the
+			// invariant above and the wire consequence apply
+			v.Class("msg-route-unmarshal-error")
+			v.NonTrivial = multiLine(in)
+			return wireConsequence(v, c, got)
+		}
 		if !decodedOK && got.IsSet() {
 			return v.Failf("", "Message.UnmarshalText(%q): %s is set to %q although the first event never sets it", name+": "+in+"\n\n", c.Field, got.String())
 		}
